@@ -53,6 +53,17 @@ def variants(case):
     return [("arpa", a, False), ("inter", b, True)]
 
 
+def known_key(case):
+    """Input class of the known finding `collapse-stream-past-end`: the highest order has a prune
+    threshold > 0 or --limit_vocab_file is given.  Then CollapseStream::operator++ (adjust_counts.cc)
+    evaluates / marks the record one past the end of the last block when the stream ends: SIGSEGV via
+    prune_words_[garbage], or a stray Mark() on the first record of the neighbouring block of the chain
+    (a wrongly pruned n-gram: different bytes, back-off mismatch aborts), depending on block size and
+    timing.  Everything outside this class is reported."""
+    hi = case["prune"] is not None and case["prune"][-1] > 0
+    return "collapse-stream-past-end" if (hi or case["limit"] is not None) else None
+
+
 def replay_obj(case, t0, t1, diff, kind):
     name, off = diff
     return {"stream": "lmplz-config", "output_kind": kind,
@@ -133,17 +144,15 @@ def one_corpus(ctx, wrappers, case0, wd, n_cfg, n_rep, label, timeout=120):
                 continue
             if cls != "ok":
                 # neither success nor a configuration rejection: crash / hang / exception in a worker
-                # known class: killed by a signal with --limit_vocab_file given (CollapseStream::operator++ reads
-                # prune_words_[garbage] one record past the end of the last block; repo_patches/33-...)
-                key = "collapse-stream-past-end" if (case["limit"] is not None and cls.startswith("abort(-")) else None
+                # known class (see known_key): CollapseStream::operator++ touches the record past the end of the last block
                 if ctx.violation("lmplz fails (%s) under a memory configuration instead of rejecting it or succeeding" % cls,
                                  {"stream": "lmplz-config", "corpus": case["corpus"].decode("latin-1"),
                                   "corpus_encoding": "latin-1", "command": M.cmdline(t), "class": cls,
                                   "limit_vocab": None if case["limit"] is None else case["limit"].decode("latin-1"),
-                                  "stderr": t["stderr"][-1500:]}, key=key):
+                                  "stderr": t["stderr"][-1500:]}, key=known_key(case)):
                     found = True
                 else:
-                    ctx.hist("known", key)
+                    ctx.hist("known", "collapse-stream-past-end:" + cls)
                 continue
             if first is None:
                 first = (t, cfg)
@@ -153,6 +162,12 @@ def one_corpus(ctx, wrappers, case0, wd, n_cfg, n_rep, label, timeout=120):
                 continue
             # ---- byte difference: shrink the corpus keeping the two configurations different
             c0, c1 = first[1], cfg
+            key = known_key(case)
+            if key and any(k["key"] == key and k.get("status", "open") == "open" for k in ctx.known):
+                ctx.violation("lmplz output bytes depend on the memory configuration / schedule: %s differs at offset %d"
+                              % d, replay_obj(case, first[0], t, d, kind), key=key)
+                ctx.hist("known", "collapse-stream-past-end:bytes")
+                break
 
             def differs(c):
                 x = M.run_cfg(wrappers, c, wd, "s0", c0, inter, timeout=timeout)
